@@ -41,6 +41,12 @@ func init() {
 	register("C01", "N-FRAME", ruleNFrame)
 	register("C01", "B-NAMETEST", ruleBNameTest)
 
+	register("C15", "X-CENSUS", ruleXCensus)
+	register("C15", "X-TOTAL", ruleXTotal)
+	register("C15", "A-CELLS", ruleACells)
+	register("C15", "X-BOUNDS", ruleXBounds)
+	register("C15", "X-RESULT", ruleXResult)
+
 	register("C13", "N-OWN", ruleNOwn)
 	register("C13", "N-RESTORE", ruleNRestore)
 	register("C13", "N-PEER", ruleNPeer)
